@@ -180,8 +180,10 @@ impl MessageBufReader {
     }
 
     pub fn is_empty(&self) -> bool {
-        if self.start >= self.buf.len() {
-            true
+        if self.start >= self.end {
+            // nothing buffered: the next length has not been read yet, so this is not an end marker
+            // (the byte at `start` is stale or was never written)
+            false
         } else {
             self.buf[self.start] == 0
         }
